@@ -48,6 +48,10 @@ def gen(rng, fam):
     prof = gen_net(rng, scale, fifo=fifo, bounded=(klass == "ml-live-jitter"))
     per = gen_per_link(rng, n, prof, fifo=fifo) if klass != "ml-live-jitter" else {}
     lead0 = rng.randrange(n)
+    if klass == "ml-pingpong" and rng.random() < 0.5:   # one slow direction on one or two directed links
+        for _ in range(rng.choice([1, 2])):
+            a, b = rng.sample(range(n), 2)
+            per[f"n{a}->n{b}"] = {"base": round(prof["base"] * rng.choice([5.0, 16.0]), 6)}
     if klass == "ml-recampaign":
         # bounded but non-FIFO delays: individual messages straggle (10-150 x the base), nothing is lost
         prof = {"base": round(scale * 0.2, 6), "jitter": round(scale * rng.choice([0.5, 1.0]), 6),
@@ -91,14 +95,27 @@ def gen(rng, fam):
             starts.append({"t": round(t, 5), "node": nd})
             t += 4 * dmax + hb * rng.choice([0.3, 1.2, 1.2, 2.5])
         last_start = starts[-1]["t"]
-        for i in range(rng.choice([0, 0, 1, 2])):   # a few early commands for whoever leads then (may hit recorded findings)
-            submits.append({"t": round(rng.uniform(t0 + 4 * dmax, last_start), 5), "mode": "leader", "node": 0, "cmd": f"e{i}"})
-        tt = last_start + 4 * dmax + 0.001 + rng.uniform(0, 0.5 * hb)
-        for i in range(rng.choice([1, 1, 2, 3])):
-            submits.append({"t": round(tt, 5), "mode": "leader", "node": 0, "cmd": f"t{i}", "tail": True})
-            tt += rng.uniform(0, 0.4 * hb)
-        submits.sort(key=lambda s: s["t"])
-        horizon = round(max(s["t"] for s in submits) + 2 * hb + 12 * dmax + 0.01, 5)
+        quiet = rng.random() < 0.5
+        if quiet:
+            # quiet hand-over: 1-3 commands shortly BEFORE a later hand-over, then nothing - whatever was decided must
+            # still reach every node (the new leader has to finish / announce inherited slots without a later command)
+            for i in range(rng.choice([1, 1, 2, 3])):
+                nxt = rng.choice(starts[1:])["t"]
+                back = rng.choice([rng.uniform(0, 2 * dmax), rng.uniform(0, 4 * dmax), rng.uniform(0, hb)])
+                submits.append({"t": round(max(t0 + 2 * dmax, nxt - back), 5), "mode": "leader", "node": 0, "cmd": f"e{i}"})
+            if len({s["t"] for s in submits}) < len(submits):
+                submits = submits[:1]
+            submits.sort(key=lambda s: s["t"])
+            horizon = round(last_start + 4 * dmax + 2 * hb + 12 * dmax + 0.01, 5)
+        else:
+            for i in range(rng.choice([0, 0, 1, 2])):   # a few early commands for whoever leads then (may hit recorded findings)
+                submits.append({"t": round(rng.uniform(t0 + 4 * dmax, last_start), 5), "mode": "leader", "node": 0, "cmd": f"e{i}"})
+            tt = last_start + 4 * dmax + 0.001 + rng.uniform(0, 0.5 * hb)
+            for i in range(rng.choice([1, 1, 2, 3])):
+                submits.append({"t": round(tt, 5), "mode": "leader", "node": 0, "cmd": f"t{i}", "tail": True})
+                tt += rng.uniform(0, 0.4 * hb)
+            submits.sort(key=lambda s: s["t"])
+            horizon = round(max(s["t"] for s in submits) + 2 * hb + 12 * dmax + 0.01, 5)
     elif klass == "ml-recampaign":
         # one node campaigns repeatedly (start() 2-4 times, a retry typically before the slow first campaign finished), no
         # competitor, no fault; commands go to it whenever it is the established leader, one in flight at a time;
@@ -113,6 +130,13 @@ def gen(rng, fam):
         for i in range(rng.randint(2, 6)):
             submits.append({"t": round(tc, 5), "mode": "leader", "node": 0, "cmd": f"c{i}"})
             tc += 2 * dmax + rng.uniform(0, dmax)
+        quiet = rng.random() < 0.5
+        if quiet:
+            # the node campaigns once more right after its last command (within one heartbeat interval, i.e. between its own
+            # commit and the followers learning of it) and no command follows
+            submits = submits[:rng.randint(1, 3)]
+            starts.append({"t": round(submits[-1]["t"] + rng.choice([rng.uniform(0, 3 * scale), rng.uniform(0, hb)]), 5), "node": lead0})
+            starts.sort(key=lambda s: s["t"])
         horizon = round(max([s["t"] for s in submits] + [starts[-1]["t"] + 4 * dmax]) + 2 * hb + 12 * dmax + 0.01, 5)
     elif klass in LIVE:
         base = t0 + 4 * dmax + 0.001
@@ -134,12 +158,14 @@ def gen(rng, fam):
             submits.append({"t": round(t, 5), "mode": mode, "node": rng.randrange(n), "cmd": f"c{i}"})
         submits.sort(key=lambda s: s["t"])
         horizon = round(max(s["t"] for s in submits + starts) + rng.choice([0.5, 1.0, 2.0]), 5)
+    if klass not in ("ml-pingpong", "ml-recampaign"):
+        quiet = False
     faults = []
     if klass in ("ml-single-faulty", "ml-multi"):
         faults = gen_fault_list(rng, n, horizon, ("partition", "crash", "pause", "loss", "loss"), max_faults=4)
     return {"fam": fam, "klass": klass, "seed": rng.getrandbits(32), "net_seed": rng.getrandbits(32), "n": n,
             "q1": q1, "q2": q2, "hb": hb, "profile": prof, "per_link": per, "faults": faults, "starts": starts,
-            "submits": submits, "horizon": horizon,
+            "submits": submits, "horizon": horizon, "quiet_tail": quiet,
             # ml-live-jitter judges liveness only: reordering inside the delay bound is not a fault, and the recorded
             # Multi/Flexible safety findings that reordering triggers must not end the run before liveness is judged
             "defer_fine": klass in ("ml-live-jitter", "ml-pingpong", "ml-recampaign") or (klass != "ml-live" and rng.random() < 0.3)}
@@ -200,12 +226,18 @@ def _validate(sc):
         tail = [s for s in sc.get("submits", []) if s.get("tail")]
         dmax = max_delay(sc["profile"], sc.get("per_link"))
         last_start = max(s["t"] for s in sc["starts"])
-        if not sc.get("defer_fine") or not tail or any(s["mode"] != "leader" for s in tail):
-            raise InvalidScenario("ml-pingpong: liveness-only (deferred) mode with tail commands for the leader")
-        if min(s["t"] for s in tail) < last_start + 4 * dmax:
-            raise InvalidScenario("ml-pingpong: tail commands come after the last leader is established")
-        if sc["horizon"] < max(s["t"] for s in tail) + 2 * sc["hb"] + 12 * dmax:
-            raise InvalidScenario("liveness horizon too short")
+        if sc.get("quiet_tail"):
+            if not sc.get("defer_fine") or not sc.get("submits") or tail or any(s["mode"] != "leader" for s in sc["submits"]):
+                raise InvalidScenario("ml-pingpong quiet: liveness-only mode, commands for the leader, none in the tail")
+            if max(s["t"] for s in sc["submits"]) > last_start or sc["horizon"] < last_start + 4 * dmax + 2 * sc["hb"] + 12 * dmax:
+                raise InvalidScenario("ml-pingpong quiet: commands before the last hand-over, horizon long enough")
+        else:
+            if not sc.get("defer_fine") or not tail or any(s["mode"] != "leader" for s in tail):
+                raise InvalidScenario("ml-pingpong: liveness-only (deferred) mode with tail commands for the leader")
+            if min(s["t"] for s in tail) < last_start + 4 * dmax:
+                raise InvalidScenario("ml-pingpong: tail commands come after the last leader is established")
+            if sc["horizon"] < max(s["t"] for s in tail) + 2 * sc["hb"] + 12 * dmax:
+                raise InvalidScenario("liveness horizon too short")
     if k in LIVE:
         if any(s["mode"] != "leader" for s in sc.get("submits", [])) or not sc.get("submits") or len(sc["starts"]) != 1:
             raise InvalidScenario("liveness class: one start, commands go to the leader")
@@ -258,7 +290,8 @@ def run(sc):
                         "ml_command_after_first_tick_applied_everywhere", "ml_promise_reported_entries",
                         "ml_live_two_slots_in_flight", "ml_live_acks_out_of_slot_order", "ml_leader_regained_after_own_tick_while_deposed",
                         "ml_pingpong_tail_command_applied_everywhere", "ml_recampaign_stale_nack_reached_leader",
-                        "ml_recampaign_command_applied_everywhere"], 0)
+                        "ml_recampaign_command_applied_everywhere", "ml_quiet_handover_decided_command_applied_everywhere",
+                        "ml_quiet_new_leader_re_replicated_inherited_slot"], 0)
     deposed_tick = set()         # nodes whose own heartbeat tick fired while they were not leader
     in_flight_max = [0]
     acks_ooo = [False]
@@ -461,6 +494,8 @@ def run(sc):
                     pr["ml_leader_change"] = 1
                 if len(cur) > len(old):
                     pr["ml_pending_assigned_on_takeover"] = 1
+                if sc.get("quiet_tail") and log.last_index > log.commit_index:
+                    pr["ml_quiet_new_leader_re_replicated_inherited_slot"] = 1
             elif et == P + "Heartbeat" and md.get("self_heartbeat"):
                 pr["ml_leader_deposed_by_own_heartbeat"] = 1
             was_leader[i] = lead
@@ -564,7 +599,10 @@ def run(sc):
         bad = None
         tail_cmds = {s["cmd"] for s in sc.get("submits", []) if s.get("tail")}
         for nd, fut, cmd, _ in futures:
-            if klass == "ml-pingpong" and cmd not in tail_cmds:
+            if sc.get("quiet_tail"):
+                if not any(cmd in d.values() for d in decided):
+                    continue  # quiet hand-over: judged is "decided somewhere => applied everywhere", nothing else
+            elif klass == "ml-pingpong" and cmd not in tail_cmds:
                 continue  # only commands given to the leader established in the quiet tail are judged
             lagging = [x.name for j, x in enumerate(nodes) if cmd not in sms[j].applied]
             if not any(cmd in d.values() for d in decided):
@@ -575,7 +613,7 @@ def run(sc):
                 kind = "not-applied-everywhere/follower-lacks-entry" if lacks else "not-applied-everywhere"
                 bad = (kind, f"command {cmd!r} submitted to established leader {nd.name} was never applied at {lagging}"
                              + (f"; {lacks} do not even hold the entry in their log" if lacks else " (they hold the entry)"))
-            elif not fut.is_resolved:
+            elif not fut.is_resolved and not sc.get("quiet_tail"):
                 bad = ("future-unresolved", f"submit({cmd!r}) future at {nd.name} never resolved")
             if bad:
                 break
@@ -586,6 +624,8 @@ def run(sc):
             msg = (f"fault-free, {'bounded jitter (reordering)' if klass == 'ml-live-jitter' else 'bounded delays with stragglers' if klass == 'ml-recampaign' else 'FIFO links'}, delays <= {dmax:.4f}s, heartbeat {sc['hb']}s, horizon {sc['horizon']}s: {bad[1]}; "
                    f"commit indexes {[x.log.commit_index for x in nodes]}, leaders now {[x.name for x in nodes if x.is_leader]}, "
                    f"commands skipped because no node was leader: {skipped['no_leader']}")
+    pr["ml_quiet_handover_decided_command_applied_everywhere"] = int(bool(sc.get("quiet_tail")) and any(
+        any(c in d.values() for d in decided) and all(c in sm.applied for sm in sms) for _, _, c, _ in futures))
     pr["ml_recampaign_command_applied_everywhere"] = int(klass == "ml-recampaign" and any(
         all(c in sm.applied for sm in sms) for _, _, c, _ in futures))
     pr["ml_pingpong_tail_command_applied_everywhere"] = int(klass == "ml-pingpong" and any(
